@@ -21,7 +21,8 @@ ASSUMPTIONS = ["a read's 'original' alignment is its exons column (CIGAR blocks 
 STRATEGIES = ["none", "default_pacbio", "default_ont", "conservative_ont", "all", "assembly"]
 END_MOVERS = {"default_ont", "all"}          # strategies with fake_terminal_exons and/or terminal_exons
 FAKE_TERMINAL_ONLY = {"default_ont"}           # fake_terminal_exons without terminal_exons (isoquant.py table, docs)
-NOISE = ["shift", "skipmicro", "faketerm", "microir", "mmjunction", "termmis", "termmis"]
+NOISE = ["shift", "skipmicro", "faketerm", "microir", "mmjunction", "termmis", "termmis", "tinyterm", "tinyterm",
+         "fakemicro"]
 
 
 @st.composite
@@ -165,7 +166,7 @@ def illumina_scenarios(draw):
             k += 1
             # long read: junctions shifted by exactly +-4 on one side sometimes, or an internal micro-exon skipped
             blocks = [list(e) for e in ex]
-            mode = src.choice(["exact", "shift4", "skip", "shift"])
+            mode = src.choice(["exact", "shift4", "skip", "shift", "tiny_end", "tiny_start"])
             if mode == "shift4" and len(blocks) > 1:
                 i = src.int(0, len(blocks) - 2)
                 if src.bool():
@@ -184,8 +185,23 @@ def illumina_scenarios(draw):
                 i = src.int(0, len(blocks) - 2)
                 blocks[i][1] += src.int(-10, 10)
                 blocks[i + 1][0] += src.int(-10, 10)
-            if any(b[1] - b[0] < 5 for b in blocks) or any(blocks[i + 1][0] - blocks[i][1] < 5 for i in
-                                                           range(len(blocks) - 1)):
+            elif mode in ("tiny_end", "tiny_start") and len(blocks) > 2:
+                # the read ends (starts) with a few bases that the aligner placed right before (after) the junction
+                # the short reads support
+                d = src.int(2, 6)
+                if mode == "tiny_end":
+                    i = src.int(1, len(blocks) - 2)
+                    iend = blocks[i + 1][0] - 1
+                    if iend - blocks[i][1] >= 60:
+                        blocks = blocks[:i + 1] + [[iend - d + 1, iend]]
+                else:
+                    i = src.int(1, len(blocks) - 2)
+                    istart = blocks[i - 1][1] + 1
+                    if blocks[i][0] - istart >= 60:
+                        blocks = [[istart, istart + d - 1]] + blocks[i:]
+            if mode not in ("tiny_end", "tiny_start") and (
+                    any(b[1] - b[0] < 5 for b in blocks) or any(blocks[i + 1][0] - blocks[i][1] < 5 for i in
+                                                                range(len(blocks) - 1))):
                 blocks = [list(e) for e in ex]
             sc["reads"].append(R.make_read("r%d" % k, g["chr"], blocks, flag=16 if g["strand"] == "-" else 0,
                                            polya=25 if g["strand"] == "+" else 0,
@@ -200,6 +216,9 @@ def illumina_scenarios(draw):
     sc["hidden_genes"] = sc["genes"]
     sc["genes"] = []
     sc["opts"] = ["--data_type", src.choice(S.DATA_TYPES), "--no_gzip", "--threads", "1"]
+    sc["strategy"] = src.choice([None, None, "none", "conservative_ont", "all"])
+    if sc["strategy"]:
+        sc["opts"] += ["--splice_correction_strategy", sc["strategy"]]
     return sc
 
 
@@ -238,6 +257,9 @@ def evaluate_illumina(case, ctx):
             blocks = b["blocks"]
             if blocks != orig:
                 changed += 1
+                if sc.get("strategy") == "none":
+                    ctx.violation("C14:illumina:changed-under-strategy-none", {"read": b["name"], "orig": orig,
+                                                                               "bed": blocks}, case)
             if (blocks[0][0], blocks[-1][1]) != (orig[0][0], orig[-1][1]):
                 ctx.violation("C14:illumina:ends-moved", {"read": b["name"], "orig": orig, "bed": blocks}, case)
             ol, orr = _sites(orig)
